@@ -83,7 +83,9 @@ def gen_typed(rnd):
     lines = [""]
     if is_fixture:
         deco, scope = rnd.choice([("@pytest.fixture", 0), ("@pytest.fixture()", 0), ("@fixture", 0), ("@pytest.fixture(scope=\"module\")", 2),
-                                  ("@pytest.fixture(scope='session', autouse=True)", 4), ("@pytest.fixture(autouse=True, scope=\"class\")", 1)])
+                                  ("@pytest.fixture(scope='session', autouse=True)", 4), ("@pytest.fixture(autouse=True, scope=\"class\")", 1),
+                                  ("@pytest_asyncio.fixture", 0), ("@pytest_asyncio.fixture(scope=\"module\")", 2),
+                                  ("@pytest_asyncio.fixture(loop_scope=\"session\")", 0)])
         lines.append(deco)
         if rnd.random() < 0.3:
             lines.append("@pytest.mark.skip")
